@@ -153,3 +153,139 @@ def f64_of(m, t):
 
 def fpval(x):
     return z3.FPVal(x, FPS)
+
+
+# ----------------------------------------------------------------------------------------------- bounded histories
+def skeletons(K, nsk=2):
+    """Operation skeletons of length K over nsk sketches: ('add', s) | ('merge', dst, src); sketches are renamed so that
+    they are first touched in increasing order, and merges from a still-empty sketch are dropped (they are no-ops)."""
+    import itertools
+    ops = [("add", s) for s in range(nsk)] + [("merge", a, b) for a in range(nsk) for b in range(nsk) if a != b]
+    out = []
+    for seq in itertools.product(ops, repeat=K):
+        seen = []
+        nonempty = set()
+        ok = True
+        for op in seq:
+            touched = [op[1]] if op[0] == "add" else [op[1], op[2]]
+            if op[0] == "merge" and op[2] not in nonempty:
+                ok = False
+                break
+            for s in touched:
+                if s not in seen:
+                    if s != len(seen):
+                        ok = False
+                        break
+                    seen.append(s)
+            if not ok:
+                break
+            if op[0] == "add":
+                nonempty.add(op[1])
+            elif op[2] in nonempty:
+                nonempty.add(op[1])
+        if ok:
+            out.append(seq)
+    return out
+
+
+def bmc_linear(width, depth, skel, nkeys=3, nsk=2, domain="boundary"):
+    """Unroll the real kernels along one skeleton from empty sketches.  Keys are chosen by symbolic selectors among
+    nkeys keys with symbolic columns; multiplicities are symbolic 'true' values capped like CountMinLinear.add does."""
+    book = KeyBook()
+    kids = [book.new_key(f"K{i}", i + 1)[1] for i in range(nkeys)]
+    ex = Executor(stubs={"fasthash64": book.stub()})
+    st = State()
+    sks = [SymCM(st, f"s{i}", 32, width, depth, zero=True) for i in range(nsk)]
+    Z = z3.BitVecVal(0, 64)
+    true = [[Z for _ in range(nkeys)] for _ in range(nsk)]
+    nadd = [Z for _ in range(nsk)]
+    steps = []
+    assume = []
+    cols = [[None] * depth for _ in range(nkeys)]
+    for i, kid in enumerate(kids):
+        cols[i] = keycols(book, kid, width, depth)
+    checks = []
+    M = z3.BitVecVal(MAX32, 64)
+    cap = lambda x: z3.If(z3.UGT(x, M), M, x)
+    for t, op in enumerate(skel):
+        if op[0] == "add":
+            sel = z3.BitVec(f"sel{t}", 2)
+            vt = z3.BitVec(f"v{t}", 64)
+            assume.append(z3.ULT(sel, nkeys))
+            if domain == "boundary":
+                assume.append(z3.Or(z3.ULE(vt, 3), z3.And(z3.UGE(vt, MAX32 - 3), z3.ULE(vt, MAX32 + 3)), vt == (1 << 40)))
+            else:
+                assume.append(z3.ULE(vt, 1 << 40))
+            v32 = z3.Extract(31, 0, cap(vt))
+            key = SelKey(sel, kids)
+            st = add_linear(ex, st, sks[op[1]], key, v32)
+            for i in range(nkeys):
+                true[op[1]][i] = true[op[1]][i] + z3.If(sel == i, vt, Z)
+            steps.append(("add", op[1], sel, vt))
+        else:
+            st = merge_linear(ex, st, sks[op[1]], sks[op[2]])
+            for i in range(nkeys):
+                true[op[1]][i] = true[op[1]][i] + true[op[2]][i]
+            steps.append(("merge", op[1], op[2]))
+        # property after this step on every sketch, every key
+        for s in range(nsk):
+            for i in range(nkeys):
+                e = zx(cm_est(st.heap, sks[s].cms, cols[i]), 64)
+                lb = z3.UGE(e, cap(true[s][i]))
+                ub = None
+                for r in range(depth):
+                    srow = Z
+                    for j in range(nkeys):
+                        srow = srow + z3.If(cols[j][r] == cols[i][r], true[s][j], Z)
+                    ub = srow if ub is None else z3.If(z3.ULT(srow, ub), srow, ub)
+                checks.append((t, s, i, z3.And(lb, z3.ULE(e, cap(ub)))))
+    return dict(book=book, ex=ex, st=st, sks=sks, steps=steps, assume=assume + list(st.pc) + book.range_constraints(), checks=checks, cols=cols, true=true)
+
+
+def bmc_decode(h, m, width, depth):
+    ops = []
+    for stp in h["steps"]:
+        if stp[0] == "add":
+            ops.append(["add", stp[1], ev(m, stp[2]), ev(m, stp[3])])
+        else:
+            ops.append(["merge", stp[1], stp[2]])
+    return {"kind": "linear-history", "width": width, "depth": depth, "cols": [[ev(m, c) for c in row] for row in h["cols"]], "ops": ops,
+            "n_sketches": len(h["sks"])}
+
+
+def replay_linear_history(cex, check="c01"):
+    """Run the history through the public API on fresh real sketches with real keys realising the column patterns and
+    judge: true <= estimate <= classic count-min value (capped) after every step, for every key and sketch."""
+    w, d = cex["width"], cex["depth"]
+    keys = realise_keys(w, d, cex["cols"])
+    if keys is None:
+        return {"reproduced": False, "how": "could not find concrete keys for the column patterns"}
+    H = hashes()
+    C = cm()
+    nsk = cex.get("n_sketches", 2)
+    sks = [C.CountMinLinear(w, d) for _ in range(nsk)]
+    true = [dict((k, 0) for k in keys) for _ in range(nsk)]
+    realcols = {k: [int(H.fasthash64(k, r)) % w for r in range(d)] for k in keys}
+    fails = []
+    prev_est = None
+    for t, op in enumerate(cex["ops"]):
+        if op[0] == "add":
+            k = keys[op[2]]
+            sks[op[1]].add(k, op[3])
+            true[op[1]][k] += op[3]
+        else:
+            before_src = sks[op[2]].cms.copy()
+            sks[op[1]].merge(sks[op[2]])
+            for k in keys:
+                true[op[1]][k] += true[op[2]][k]
+            if (before_src != sks[op[2]].cms).any():
+                fails.append(f"step {t}: merge modified its argument")
+        for s in range(nsk):
+            for k in keys:
+                e = int(sks[s].query(k))
+                lo = min(true[s][k], MAX32)
+                hi = min(min(sum(true[s][j] for j in keys if realcols[j][r] == realcols[k][r]) for r in range(d)), MAX32)
+                if not (lo <= e <= hi):
+                    fails.append(f"step {t} sketch {s} key {k.hex()}: estimate {e} not in [{lo}, {hi}]")
+    return {"reproduced": bool(fails), "how": "fresh CountMinLinear sketches, real keys hashing to the model's columns, add/merge/query through the public API, exact integer oracle",
+            "keys": [k.hex() for k in keys], "failed_clauses": fails[:6]}
